@@ -90,7 +90,7 @@ def run_case(impl, rng_seed, sections):
             if os.path.exists(pth):
                 for l in open(pth, encoding="latin1").read().split("\n"):
                     if not l: continue
-                    m = re.fullmatch(r"\[\d\d:\d\d:\d\d \d\d/\d\d/\d{4}\] \(([^:()]+):([a-z]+)\) (.*)", l)
+                    m = re.fullmatch(r"(?:\[[^\]\n]*\] )?\(([^:()]+):([a-z]+)\) (.*)", l)     # optional time stamp (its format is not part of the property)
                     if not m:
                         bad_lines.append((dest, l)); continue
                     if m.group(1) in FACS and re.fullmatch(r"T\d+ \S+ \d", m.group(3)):
